@@ -14,8 +14,8 @@ SHARD_TIMEOUT = {"quick": 300, "thorough": 2400}
 
 def plan(tier, seed):
     specs = []
-    keys_small = 3 if tier == "quick" else 10
-    keys_big = 1 if tier == "quick" else 6
+    keys_small = 4 if tier == "quick" else 60
+    keys_big = 2 if tier == "quick" else 24
     for n in range(2, 11):
         specs.append({"name": f"ffx-exh-n{n}", "kind": "ffx_exh", "n": n, "keys": keys_small})
     for n in (11, 12):
@@ -24,14 +24,14 @@ def plan(tier, seed):
     nr = 5 if tier == "quick" else 12
     for i in range(nr):
         specs.append({"name": f"ffx-rand{i}", "kind": "ffx_rand", "index": i,
-                      "cases": 250 if tier == "quick" else 3000, "budget_s": 90 if tier == "quick" else 1200})
-    for k in range(1 if tier == "quick" else 6):
+                      "cases": 400 if tier == "quick" else 40000, "budget_s": 90 if tier == "quick" else 420})
+    for k in range(1 if tier == "quick" else 24):
         specs.append({"name": f"lr-exh{k}", "kind": "lr_exh", "index": k})
     for i in range(3 if tier == "quick" else 8):
-        specs.append({"name": f"lr-rand{i}", "kind": "lr_rand", "index": i, "sets": 6 if tier == "quick" else 40})
+        specs.append({"name": f"lr-rand{i}", "kind": "lr_rand", "index": i, "sets": 6 if tier == "quick" else 400})
     specs.append({"name": "contracts", "kind": "contracts"})
     for i in range(2 if tier == "quick" else 8):
-        specs.append({"name": f"insitu{i}", "kind": "insitu", "index": i, "rounds": 3 if tier == "quick" else 12})
+        specs.append({"name": f"insitu{i}", "kind": "insitu", "index": i, "rounds": 3 if tier == "quick" else 150})
     return specs
 
 
